@@ -18,28 +18,44 @@ def run(pid):
     states = trans = 0
     mcs = []
     k = 0
+    defect_runs = []
     for fl, fb in (([2, 2, 1], [5, 7, 4]), ([2, 2, 2, 2], [4, 4, 9, 5]), ([1], [6]), ([3, 3], [8, 5])):
-        for declared in (-1, sum(fl), sum(fl) + 1):
+        # declared: unknown, exact, under-supplied, over-supplied by part of a frame / by whole frames
+        for declared in (-1, sum(fl), sum(fl) + 1, sum(fl) - 1, max(1, sum(fl) - fl[-1] - 1)):
             for meta in (6, 11):
-                k += 1
-                name = "MCC%d" % k
-                mp = write_text(os.path.join(wd, name + ".tla"), "---- MODULE %s ----\nEXTENDS Crash\ncFL == %s\ncFB == %s\ncDecl == %d\n====\n" % (
-                    name, tla_seq(fl), tla_seq(fb), declared))
-                cp = write_text(os.path.join(wd, name + ".cfg"), """CONSTANTS
+                for defects in ((), ("overshoot_written",), ("header_eof_is_eos",)):
+                    if defects and meta != 6:
+                        continue
+                    k += 1
+                    name = "MCC%d" % k
+                    mp = write_text(os.path.join(wd, name + ".tla"), "---- MODULE %s ----\nEXTENDS Crash\ncFL == %s\ncFB == %s\ncDecl == %d\ncDef == %s\n====\n" % (
+                        name, tla_seq(fl), tla_seq(fb), declared, tla_set(defects)))
+                    cp = write_text(os.path.join(wd, name + ".cfg"), """CONSTANTS
  MetaLen = %d
  FrameLen <- cFL
  FrameBytes <- cFB
  HeaderBytes = 3
  Declared <- cDecl
- Defects = {}
+ Defects <- cDef
 SPECIFICATION Spec
 INVARIANT ExactlyTheCompleteFrames NeverMore CleanEndOnlyWhenEntitled OpenFailsInsideMetadata TruncationReported
 CHECK_DEADLOCK FALSE
 """ % meta)
-                mcs.append((mp, cp))
+                    if defects:
+                        # the defect only shows when a frame crosses the declared total / the total is unknown
+                        shows = (defects[0] == "overshoot_written" and declared != -1 and declared < sum(fl) and any(
+                            sum(fl[:i]) < declared < sum(fl[:i + 1]) for i in range(len(fl)))) or \
+                                (defects[0] == "header_eof_is_eos" and declared == -1)
+                        if shows:
+                            defect_runs.append((mp, cp, defects[0]))
+                    else:
+                        mcs.append((mp, cp))
     for r in parallel(lambda mc: tlc_model_check(mc[0], mc[1], wd, workers=1), mcs, n=8):
         states += r["distinct"]
         trans += r["generated"]
+    for mp, cp, d in defect_runs:
+        expect_model_violation(mp, cp, wd, what="Crash with defect " + d)
+    log("[%s] TLC: %d defect variants of the Crash model refuted (overshoot_written, header_eof_is_eos)" % (pid, len(defect_runs)))
     log("[%s] TLC: Crash model %d configurations, %d states, %d transitions" % (pid, len(mcs), states, trans))
 
     rnd = random.Random(seed() * 101 + 14)
@@ -52,6 +68,16 @@ CHECK_DEADLOCK FALSE
         for frames in ((40, 48) if t == "quick" else (16, 33, 40, 48, 64)):
             jobs.append({"fe": fe, "channels": rnd.choice([1, 2]), "bps": rnd.choice([8, 16]), "frames": frames, "declared": declared,
                          "every_byte": True, "signal": rnd.choice(["walk", "noise", "sine"]), "seed": rnd.randint(1, 9999), "opts": opts})
+    # the caller supplies more (or less) than it declared, in chunks, and dies at the first refused write:
+    # no frame that crosses the declared total may have reached the output
+    for fe, st in itertools.product(("byte-le", "sample", "channel"), sts):
+        opts = {"block_size": 16, "padding": -1}
+        if st is not None:
+            opts["seektable"] = st
+        for decl, frames, chunk in ((37, 64, 16), (40, 48, 5), (33, 48, 48), (47, 64, 7), (60, 40, 16)):
+            jobs.append({"fe": fe, "channels": rnd.choice([1, 2]), "bps": rnd.choice([8, 16]), "frames": frames, "declared": True,
+                         "declared_frames": decl, "chunk_frames": chunk, "every_byte": True, "signal": rnd.choice(["walk", "noise", "sine"]),
+                         "seed": rnd.randint(1, 9999), "opts": opts})
     # larger inputs with default padding / bigger blocks: cuts at every underlying write call
     for i in range(10 if t == "quick" else 60):
         bs = rnd.choice([16, 64, 256, 1152, 4096])
@@ -59,6 +85,9 @@ CHECK_DEADLOCK FALSE
                      "frames": bs * rnd.randint(2, 4) + rnd.randint(0, bs - 1), "declared": rnd.random() < 0.5, "every_byte": False,
                      "signal": rnd.choice(["walk", "noise", "sine", "stereo"]), "seed": rnd.randint(1, 9999),
                      "opts": {"block_size": bs, "seektable": rnd.choice(["none", {"frames": 2}]), "max_lpc": rnd.choice([-1, 8])}})
+        if jobs[-1]["declared"] and i % 2 == 0:
+            # declared total = two blocks and a bit, supplied in block-sized writes that run past it
+            jobs[-1].update({"declared_frames": 2 * bs + rnd.randint(1, bs - 1), "frames": 4 * bs, "chunk_frames": rnd.choice([bs, bs // 2 + 1, 3 * bs])})
     parts = [jobs[i::8] for i in range(8)]
 
     def drive(ip):
